@@ -607,6 +607,29 @@ theorem asmImm_value_partial (ctx : ImmCtx) (t : ImmTy) (v : Int) (hr : InRange 
     simp only [immWanted, ImmCtx.width]
     rw [signExtend32_eq v this.1 this.2]
 
+/-- `immWanted` is the faithful `width`-bit encoding of a representable constant:
+the number itself when non-negative, its two's complement when negative. -/
+theorem immWanted_faithful (ctx : ImmCtx) (v : Int) (hw : 1 ≤ ctx.width) (h : ImmRepresentable ctx v) :
+    (0 ≤ v → (immWanted ctx v : Int) = v) ∧ (v < 0 → (immWanted ctx v : Int) = v + 2 ^ ctx.width) := by
+  obtain ⟨h1, h2⟩ := h
+  have e : ctx.width = (ctx.width - 1) + 1 := by omega
+  have hp : (2 : Int) ^ ctx.width = 2 ^ (ctx.width - 1) * 2 := by
+    conv => lhs; rw [e]
+    exact Int.pow_succ _ _
+  have hpos' : (0 : Int) < 2 ^ (ctx.width - 1) := Int.pow_pos (by decide)
+  unfold immWanted
+  generalize hA : (2 : Int) ^ ctx.width = A at *
+  generalize hB : (2 : Int) ^ (ctx.width - 1) = B at *
+  have hApos : 0 < A := by omega
+  constructor
+  · intro h0
+    rw [Int.toNat_of_nonneg (Int.emod_nonneg _ (by omega)), Int.emod_eq_of_lt h0 h2]
+  · intro hneg
+    rw [Int.toNat_of_nonneg (Int.emod_nonneg _ (by omega))]
+    have : (v + A) % A = v % A := Int.add_emod_right _ _
+    rw [← this]
+    exact Int.emod_eq_of_lt (by omega) (by omega)
+
 /-- The guard is what separates right from wrong: in a sign-extending context a
 constant outside the signed 32-bit range is read as a DIFFERENT value. -/
 theorem asmImm_differs_without_guard (t : ImmTy) (v : Int) (hr : InRange t v)
@@ -679,6 +702,153 @@ theorem build_operands_kept (matches_ : Form → List Operand → Bool) (mk : Fo
   obtain ⟨_, f, _, _, _, _, rfl⟩ := (build_first_match matches_ mk forms ops).2 i h
   exact hmk f ops
 end Build
+
+/-! ## The operand list of an instruction line -/
+
+theorem splitOps_append (t : List Char) (ht : ∀ c ∈ t, c ≠ ',') (rest cur : List Char) :
+    splitOps (t ++ rest) cur = splitOps rest (t.reverse ++ cur) := by
+  induction t generalizing cur with
+  | nil => simp
+  | cons c t ih =>
+    have hc : c ≠ ',' := ht c List.mem_cons_self
+    have ht' : ∀ x ∈ t, x ≠ ',' := fun x hx => ht x (List.mem_cons_of_mem _ hx)
+    have step : splitOps (c :: (t ++ rest)) cur = splitOps (t ++ rest) (c :: cur) := by
+      rw [splitOps]
+      · intro rest' h1; exact absurd h1 hc
+    rw [List.cons_append, step, ih ht']
+    simp
+
+/-- `strings.Join(texts, ", ")` splits back into the texts, when no text contains a comma. -/
+theorem splitOps_joinOps (ts : List (List Char)) (hne : ts ≠ []) (h : ∀ t ∈ ts, ∀ c ∈ t, c ≠ ',') :
+    splitOps (joinOps ts) [] = ts := by
+  induction ts with
+  | nil => exact absurd rfl hne
+  | cons x xs ih =>
+    have hx : ∀ c ∈ x, c ≠ ',' := h x List.mem_cons_self
+    cases xs with
+    | nil =>
+      have := splitOps_append x hx [] []
+      simp only [List.append_nil] at this
+      simp [joinOps, this, splitOps]
+    | cons y ys =>
+      have ih' := ih (by simp) (fun t ht => h t (List.mem_cons_of_mem _ ht))
+      have := splitOps_append x hx (',' :: ' ' :: joinOps (y :: ys)) []
+      simp only [joinOps, this, List.append_nil]
+      rw [splitOps]
+      simp [ih']
+
+
+theorem intDecPlus_noComma (v : Int) : ∀ c ∈ intDecPlus v, c ≠ ',' := by
+  intro c hc
+  rcases intDecPlus_chars v c hc with rfl | rfl | hd
+  · decide
+  · decide
+  · intro h; subst h; revert hd; decide
+
+theorem intDec_noComma (v : Int) : ∀ c ∈ intDec v, c ≠ ',' := by
+  intro c hc
+  rcases intDec_chars v c hc with rfl | hd
+  · decide
+  · intro h; subst h; revert hd; decide
+
+theorem hexPad_noComma (w n : Nat) : ∀ c ∈ hexPad w n, c ≠ ',' := by
+  intro c hc
+  unfold hexPad padZero at hc
+  simp only [List.mem_cons, List.mem_append, List.mem_replicate] at hc
+  rcases hc with rfl | rfl | ⟨_, rfl⟩ | hc
+  · decide
+  · decide
+  · decide
+  · obtain ⟨d, hd, rfl⟩ := mem_digitsFuel 16 (by omega) (by omega) _ _ _ hc
+    have := (digitChar_notStructural d hd).1
+    intro h; rw [h] at this; revert this; decide
+
+theorem name_noComma {n : List Char} (h : nameOK n = true) : ∀ c ∈ n, c ≠ ',' :=
+  fun c hc => (not_structural (nameOK_noStructural h c hc)).2.2.2.2.2.2.1
+
+/-- no operand text contains a comma -/
+theorem asm_noComma {names : List (List Char)} (hn : ∀ n ∈ names, nameOK n = true) (op : Op) (hwf : WF names op) :
+    ∀ c ∈ asm op, c ≠ ',' := by
+  intro c hc
+  cases op with
+  | reg n => exact name_noComma (hn n hwf) c hc
+  | label l => exact name_noComma hwf.1 c hc
+  | rel v =>
+    simp only [asm, List.mem_cons] at hc
+    rcases hc with rfl | hc
+    · decide
+    · exact intDecPlus_noComma v c hc
+  | imm t v =>
+    simp only [asm, immAsm] at hc
+    split at hc
+    · simp only [List.mem_cons] at hc
+      rcases hc with rfl | hc
+      · decide
+      · exact intDecPlus_noComma v c hc
+    · simp only [List.mem_cons] at hc
+      rcases hc with rfl | hc
+      · decide
+      · exact hexPad_noComma _ _ c (by simpa [hexPad] using hc)
+  | mem m =>
+    obtain ⟨⟨b, hbase, hb⟩, hidx, hsym, _, _⟩ := hwf
+    have hsym' : ∀ x ∈ m.sym, x ≠ ',' := by
+      intro x hx
+      have := List.all_eq_true.mp hsym x hx
+      exact (not_structural (by simpa using this)).2.2.2.2.2.2.1
+    simp only [asm, memAsm, List.mem_append] at hc
+    rcases hc with (hc | hc) | hc
+    · unfold memPrefix at hc
+      split at hc
+      · simp only [List.mem_append] at hc
+        rcases hc with hc | hc
+        · unfold symString at hc
+          split at hc
+          · simp only [List.mem_append, List.mem_cons, List.mem_nil_iff, or_false] at hc
+            rcases hc with hc | rfl | rfl
+            · exact hsym' c hc
+            · decide
+            · decide
+          · exact hsym' c hc
+        · exact intDecPlus_noComma _ c hc
+      · split at hc
+        · exact intDec_noComma _ c hc
+        · simp at hc
+    · rw [hbase] at hc
+      simp only [basePart, List.mem_cons, List.mem_append, List.mem_nil_iff, or_false] at hc
+      rcases hc with (rfl | hc) | rfl
+      · decide
+      · exact name_noComma (hn b hb) c hc
+      · decide
+    · unfold indexPart at hc
+      split at hc
+      · rename_i i hi
+        split at hc
+        · simp only [List.mem_cons, List.mem_append, List.mem_nil_iff, or_false] at hc
+          rcases hc with ((rfl | hc) | rfl | hc) | rfl
+          · decide
+          · exact name_noComma (hn i (hidx i hi)) c hc
+          · decide
+          · intro h; subst h; have := digits10_all _ _ hc; revert this; decide
+          · decide
+        · simp at hc
+      · simp at hc
+
+/-- **The operand list of a printed instruction line reads back as the operands
+given, in order** (printer/goasm.go `joinOperands` + the operand round trip). -/
+theorem line_roundtrip (names : List (List Char)) (hn : ∀ n ∈ names, nameOK n = true)
+    (ops : List Op) (hne : ops ≠ []) (hwf : ∀ op ∈ ops, WF names op) :
+    (splitOps (joinOps (ops.map asm)) []).map (parseOp names) = ops.map (fun op => some (canon op)) := by
+  have hsplit := splitOps_joinOps (ops.map asm) (by simpa using hne) (by
+    intro t ht
+    obtain ⟨op, hop, rfl⟩ := List.mem_map.mp ht
+    exact asm_noComma hn op (hwf op hop))
+  rw [hsplit, List.map_map]
+  apply List.map_congr_left
+  intro op hop
+  exact parseOp_asm names hn op (hwf op hop)
+
+example : splitOps (joinOps ["$0x01".toList, "(AX)(BX*2)".toList, "X1".toList]) [] = ["$0x01".toList, "(AX)(BX*2)".toList, "X1".toList] := by decide
+
 
 /-! ## Non-vacuity and samples -/
 
